@@ -375,7 +375,7 @@ theorem ok_effAfter {e : Expr} (h : e.ok) : TrivOk (e.effAfter false) := by
   | paren v lg tg lb tb b a => exact h.2.2
   | app n x g fa b a => exact h.2.2.2.2
   | wth e bd c g s b a => exact h.2.2.2.2.2
-  | asrt c bd x y b a => exact h.elim
+  | asrt c bd x y b a => exact h.2.2.2.2.2
 
 theorem allClosed_of_noLayout : ∀ {es : List Expr}, allOk es → allNoLayout es → allClosed es
   | [], _, _ => trivial
